@@ -52,15 +52,6 @@ def specOf (entries : List Entry) (f : FieldRow) : Option (FieldSpec Val × Kind
 def showItems (l : List (Str × Str)) : String :=
   s!"[{encList (l.map (·.1))}] [{encList (l.map (·.2))}]"
 
-/-- F-C16-1: a present field whose codec pair is registered as not round-tripping (`PDiffs`) -/
-def triggerNoRoundTrip : List Kind → List (Option Val) → Bool
-  | k :: ks, some _ :: vs => k.isNoRoundTrip || triggerNoRoundTrip ks vs
-  | _ :: ks, none :: vs => triggerNoRoundTrip ks vs
-  | _, _ => false
-
-def suffix (kinds : List Kind) (x : List (Option Val)) : String :=
-  if triggerNoRoundTrip kinds x then "\t!F-C16-1" else ""
-
 /-- value tokens of `derive.value`: `none` | `s:x…` | `b:0/1` | `n:dec` | `l:x…,x…` | `k:Variant` | `x:x…` -/
 def decVal (t : String) : Option (Option Val) :=
   if t == "none" then some none
@@ -72,13 +63,6 @@ def decVal (t : String) : Option (Option Val) :=
     | ["k", r] => some (some (.kw r.toList))
     | ["x", r] => (decStr r).map fun s => some (.ext s)
     | _ => none
-
-/-- F-C16-2: an empty list in a field read with `split('\n')` (`Package-List`, `Copyright`) -/
-def triggerEmptyLines : List FieldRow → List (Option Val) → Bool
-  | f :: fs, v :: vs =>
-    ((f.de = c!"apt.deserialize_package_list" ∨ f.de = c!"debiancopyright.deserialize_copyrights")
-      && v == some (.list [])) || triggerEmptyLines fs vs
-  | _, _ => false
 
 def handle (op : String) (args : List String) : Option String :=
   match op, args with
@@ -95,9 +79,7 @@ def handle (op : String) (args : List String) : Option String :=
         let rt := match fromFields (lookupFirst items) spec with
           | .ok y => if y = x then "rt:same" else "rt:diff"
           | .error e => s!"rt:err {encStr e}"
-        let trig := (if triggerNoRoundTrip (sk.map (·.2)) x then ["F-C16-1"] else [])
-          ++ (if triggerEmptyLines row.fields x then ["F-C16-2"] else [])
-        pure (s!"ok {showItems items} {rt}" ++ (if trig.isEmpty then "" else "\t!" ++ ",".intercalate trig))
+        pure s!"ok {showItems items} {rt}"
   | "derive.from", [id, _backend, ks, vs, es] => do
     let row ← findStruct id
     let entries ← mkEntries (← decList ks) (← decList vs) (← decExtList es)
@@ -107,7 +89,7 @@ def handle (op : String) (args : List String) : Option String :=
       let spec := sk.map (·.1)
       let items := entries.map fun e => (e.key, e.value)
       match fromFields (lookupFirst items) spec with
-      | .ok x => pure (s!"ok {showItems (toFields spec x)}" ++ suffix (sk.map (·.2)) x)
+      | .ok x => pure (s!"ok {showItems (toFields spec x)}")
       | .error e => pure s!"err {encStr e}"
   | "derive.update", [id, _backend, ks, vs, es, pks, pvs, _pt] => do
     let row ← findStruct id
@@ -125,7 +107,7 @@ def handle (op : String) (args : List String) : Option String :=
         | .error e => pure s!"src-err {encStr e}"
         | .ok x =>
           let after := updateParagraph lossyBackend spec x (pks.zip pvs)
-          pure (s!"ok {showItems after}" ++ suffix (sk.map (·.2)) x)
+          pure (s!"ok {showItems after}")
   | _, _ => none
 
 end Deb822Verif.Driver.Derive
